@@ -138,6 +138,35 @@ func genSubqueryAtom(r *lib.Rng) string {
 	}
 }
 
+// genWrappedSubquery: a conjunct whose subquery sits below a single-child wrapper of physical.Expression — a type cast,
+// a type assertion (inserted by the typechecker for an argument of union type), an object field access — always below
+// the index function call. @M@ is a JSON file with a mixed-type column k, an object column o and (first row) k = 2,
+// o.x = 1; @C@ a CSV file with an Int column k (first row 2). `a` is Int for the CSV-typed table, Float for the JSON one.
+func genWrappedSubquery(which int, kind string) (string, string) {
+	op := []string{">=", ">", "<", "!="}[which/3%4]
+	if kind == "json" {
+		switch which % 3 {
+		case 0:
+			return "t.a " + op + " (SELECT m.k FROM @M@ m)[0]::float", "subquery_under_cast"
+		case 1:
+			return "t.a " + op + " abs((SELECT m.k FROM @M@ m)[0])", "subquery_under_type_assertion"
+		default:
+			return "t.a " + op + " (SELECT m.o FROM @M@ m)[0]->x", "subquery_under_field_access"
+		}
+	}
+	switch which % 3 {
+	case 0:
+		if which%2 == 0 {
+			return "t.a " + op + " (SELECT c.k FROM @C@ c)[0]::int", "subquery_under_cast"
+		}
+		return "t.a " + op + " int((SELECT m.k FROM @M@ m)[0]::float)", "subquery_under_cast"
+	case 1:
+		return "t.a " + op + " int(abs((SELECT m.k FROM @M@ m)[0]))", "subquery_under_type_assertion"
+	default:
+		return "t.a " + op + " int((SELECT m.o FROM @M@ m)[0]->x)", "subquery_under_field_access"
+	}
+}
+
 // genPredicate returns the WHERE clause and its shape (counted in the evidence).
 func genPredicate(r *lib.Rng) (string, string) {
 	switch r.Intn(8) {
@@ -317,6 +346,39 @@ func runCLI(bin string, env []string, query string) cliResult {
 	}
 }
 
+// runCLIRaw: the output lines in the order they were printed
+func runCLIRaw(bin string, env []string, query, format string) cliResult {
+	cmd := exec.Command(bin, query, "-o", format)
+	cmd.Env = env
+	var out, errb bytes.Buffer
+	cmd.Stdout, cmd.Stderr = &out, &errb
+	if err := cmd.Start(); err != nil {
+		return cliResult{Exit: -1, Err: err.Error()}
+	}
+	done := make(chan error, 1)
+	go func() { done <- cmd.Wait() }()
+	select {
+	case err := <-done:
+		res := cliResult{}
+		if err != nil {
+			res.Exit = 1
+			res.Err = strings.TrimSpace(errb.String())
+			if len(res.Err) > 600 {
+				res.Err = res.Err[len(res.Err)-600:]
+			}
+		}
+		for _, l := range strings.Split(out.String(), "\n") {
+			if l != "" {
+				res.Rows = append(res.Rows, l)
+			}
+		}
+		return res
+	case <-time.After(120 * time.Second):
+		cmd.Process.Kill()
+		return cliResult{Exit: -2, Err: "timeout"}
+	}
+}
+
 func e2eCases(cf *lib.CaseFile, rng *lib.Rng, f lib.Flags) {
 	if os.Getenv("VERIF_C26_NO_E2E") != "" {
 		cf.Side.Notes = append(cf.Side.Notes, "end-to-end part skipped (VERIF_C26_NO_E2E)")
@@ -357,15 +419,19 @@ func e2eCases(cf *lib.CaseFile, rng *lib.Rng, f lib.Flags) {
 	env := append(os.Environ(), "HOME="+home, "XDG_CONFIG_HOME="+filepath.Join(home, "cfg"), "XDG_CACHE_HOME="+filepath.Join(home, "cache"), "XDG_DATA_HOME="+filepath.Join(home, "data"),
 		"OCTOSQL_NO_TELEMETRY=1", "OCTOSQL_PLUGIN_DIR="+filepath.Join(home, "p"), "OCTOSQL_PLUGIN_TMP_DIR="+filepath.Join(home, "s"), "VERIF_C26_DATA="+dataPath)
 
-	n := f.Cases(21, 126)
+	const perTable = 9
+	n := f.Cases(3*perTable, 15*perTable)
 	var table e2eTable
 	var lines []string
 	kind := "csv"
+	wrapped := int(rng.Fork().Intn(12))
+	os.WriteFile(filepath.Join(home, "m.json"), []byte(`{"k": 2, "o": {"x": 1, "y": "q"}}`+"\n"+`{"k": "na", "o": {"x": 3, "y": "r"}}`+"\n"), 0o644)
+	os.WriteFile(filepath.Join(home, "c.csv"), []byte("k,x\n2,1\n3,5\n"), 0o644)
 	for i := 0; i < n; i++ {
 		r := rng.Fork()
-		if i%7 == 0 {
+		if i%perTable == 0 {
 			kind = "csv"
-			if i%21 == 14 {
+			if i%(3*perTable) == 2*perTable {
 				kind = "json"
 			}
 			table, lines = genE2ETable(r, kind)
@@ -374,16 +440,31 @@ func e2eCases(cf *lib.CaseFile, rng *lib.Rng, f lib.Flags) {
 			os.WriteFile(filepath.Join(home, "t."+kind), []byte(strings.Join(lines, "\n")+"\n"), 0o644)
 		}
 		pred, shape := genPredicate(r)
-		if i%7 == 0 {
+		if i%perTable == 0 {
 			pred, shape = "t.a IN (0, 1, 2)", "atom" // the tuple variant of "in" at least once per table
-		} else if i%7 == 1 {
+		} else if i%perTable == 1 {
 			pred, shape = "t.s NOT IN ('a', 'ab')", "atom"
-		} else if i%7 == 2 {
+		} else if i%perTable == 2 {
 			pred, shape = genAtom(r)+" AND "+genSubqueryAtom(r), "pushable_and_subquery"
+		} else if k := i % perTable; k >= 3 && k <= 5 {
+			// every wrapper shape once per table, alone or next to a pushable conjunct on either side
+			wrapped++
+			pred, shape = genWrappedSubquery(wrapped, kind)
+			switch wrapped % 3 {
+			case 1:
+				pred = genAtom(r) + " AND " + pred
+			case 2:
+				pred = pred + " AND " + genAtom(r)
+			}
 		}
 		native := filepath.Join(home, "t."+kind)
-		qPlugin := "SELECT t.a, t.s, t.f, t.ok, t.n FROM vt.t t WHERE " + strings.ReplaceAll(pred, "@SRC@", "vt.t")
-		qNative := "SELECT t.a, t.s, t.f, t.ok, t.n FROM " + native + " t WHERE " + strings.ReplaceAll(pred, "@SRC@", native)
+		fill := func(q, src string) string {
+			q = strings.ReplaceAll(q, "@SRC@", src)
+			q = strings.ReplaceAll(q, "@M@", filepath.Join(home, "m.json"))
+			return strings.ReplaceAll(q, "@C@", filepath.Join(home, "c.csv"))
+		}
+		qPlugin := "SELECT t.a, t.s, t.f, t.ok, t.n FROM vt.t t WHERE " + fill(pred, "vt.t")
+		qNative := "SELECT t.a, t.s, t.f, t.ok, t.n FROM " + native + " t WHERE " + fill(pred, native)
 		pr, nr := runCLI(cli, env, qPlugin), runCLI(cli, env, qNative)
 		same := pr.Exit == nr.Exit && strings.Join(pr.Rows, "\n") == strings.Join(nr.Rows, "\n")
 		idx := cf.Add("KQuery "+lib.CoqBool(same), map[string]interface{}{"kind": "e2e_query", "native_source": kind, "predicate": pred, "shape": shape, "table": lines,
@@ -394,6 +475,48 @@ func e2eCases(cf *lib.CaseFile, rng *lib.Rng, f lib.Flags) {
 		if nr.Exit != 0 {
 			cf.Count("e2e_native_query_failed")
 		}
+	}
+
+	// an event-time stream: the sequence of records and watermarks printed by the host (-o stream_native, no operator in
+	// between) must be the sequence the plugin's node produced. Several sizes, watermark after every 1..5 records.
+	for i, m := 0, f.Cases(4, 16); i < m; i++ {
+		r := rng.Fork()
+		count := []int{40, 300, 1500, 4000}[i%4] + r.Intn(50)
+		every := 1 + (i+r.Intn(5))%5
+		q := fmt.Sprintf("SELECT e.v FROM `vt.events?count=%d&every=%d` e", count, every)
+		got := runCLIRaw(cli, env, q, "stream_native")
+		var want []string
+		for v := 0; v < count; v++ {
+			ts := time.Date(2020, 1, 1, 0, 0, 0, 0, time.UTC).Add(time.Duration(v) * time.Second)
+			want = append(want, fmt.Sprintf("{+%s| %d |}", ts.Format(time.RFC3339), v))
+			if (v+1)%every == 0 {
+				want = append(want, fmt.Sprintf("{~%s}", ts))
+			}
+		}
+		same := got.Exit == 0 && len(got.Rows) == len(want)
+		firstDiff := -1
+		for k := 0; same && k < len(want); k++ {
+			if got.Rows[k] != want[k] {
+				same, firstDiff = false, k
+			}
+		}
+		js := map[string]interface{}{"kind": "e2e_stream_order", "query": q, "records": count, "watermark_every": every, "exit": got.Exit, "err": got.Err,
+			"received_messages": len(got.Rows), "expected_messages": len(want)}
+		if firstDiff >= 0 {
+			lo, hi := firstDiff-2, firstDiff+4
+			if lo < 0 {
+				lo = 0
+			}
+			if hi > len(want) {
+				hi = len(want)
+			}
+			js["first_difference_at"], js["expected_there"], js["received_there"] = firstDiff, want[lo:hi], got.Rows[lo:hi]
+		}
+		idx := cf.Add("KQuery "+lib.CoqBool(same), js, true)
+		if !same {
+			cf.Violation(idx, "the stream of records and watermarks received from the plugin is not the stream its node produced", "")
+		}
+		cf.Count("e2e_stream_order")
 	}
 
 	// the same plugin table referenced several times with different options in one query (one plugin process)
